@@ -636,6 +636,53 @@ def _set_loop_handler(interp, node, it, frame, li, key, cur):
     interp.exec_block(node.orelse, frame)
 
 
+def _dict_loop_handler(interp, node, items, frame, li, key, cur):
+    """for k, v in d.items() / for k in d: executed with an arbitrary not-yet-visited key (the body sees the
+    dict as it was when the loop started: mutating the iterated dict is outside the subset).
+    inv(c, env, visited_keys, the_map)."""
+    from .core import TSet
+
+    ctx = interp.ctx
+    ps = interp.path
+    d = items.d
+    mty = d.ty
+    M = d.t
+    kset = TSet(mty.key)
+    empty = z3.EmptySet(mty.key.sort())
+    kk = z3.Const(f"k!{mty.key.sort()}", mty.key.sort())
+    dom = z3.Lambda([kk], mty.has(M, kk))
+
+    def env_now():
+        return {k: frame.lookup(k) for k in li.havoc}
+
+    ps.oblige(f"{cur.get('name')}:loop{key}:inv-entry", "inv-entry", li.inv(ctx, env_now(), empty, M))
+    which = ps.choose([z3.BoolVal(True), z3.BoolVal(True)], f"loop{key} step/exit")
+    for name, ty in li.havoc.items():
+        frame.locals[name] = interp.wrap(ps.fresh(f"{name}_h", ty), ty)
+    if which == 0:
+        V = ps.fresh("visited", kset)
+        x = ps.fresh("key", mty.key)
+        ps.assume(z3.And(z3.IsSubset(V, dom), mty.has(M, x), z3.Not(z3.IsMember(x, V))))
+        ps.assume(li.inv(ctx, env_now(), V, M))
+        kx = interp.wrap(x, mty.key)
+        vx = interp.wrap(mty.get(M, x), mty.val)
+        interp.assign(node.target, {"items": (kx, vx), "keys": kx, "values": vx}[items.what], frame)
+        from .interp import _Break, _Continue
+
+        try:
+            interp.exec_block(node.body, frame)
+        except _Continue:
+            pass
+        except _Break:
+            raise OutsideSubset("break inside a loop with an invariant")
+        if d.t is not M:
+            raise OutsideSubset("the iterated dict is mutated inside the loop")
+        ps.oblige(f"{cur.get('name')}:loop{key}:inv-step", "inv-step", li.inv(ctx, env_now(), z3.SetAdd(V, x), M))
+        raise PathEnd()
+    ps.assume(li.inv(ctx, env_now(), dom, M))
+    interp.exec_block(node.orelse, frame)
+
+
 def _symbolic_setcomp(interp, node, frame):
     """{x for x in S if cond(x)} over a symbolic set: a fresh subset T of S whose membership is
     characterised at the ghost elements registered in ctx.ghost_elems (contracts are stated for an
@@ -677,8 +724,16 @@ def _loop_handler(interp, node, it, frame):
             li = v
     if li is None:
         raise OutsideSubset(f"loop over symbolic sequence in {cur.get('name')} (ordinal {key[1]}) has no invariant")
+    from .core import SymDictItems as _Items
+    from .core import SymEnum as _Enum
     from .core import TSet as _TSet
 
+    enum_start = None
+    if isinstance(it, _Enum):
+        enum_start = it.start
+        it = it.seq
+    if isinstance(it, _Items):
+        return _dict_loop_handler(interp, node, it, frame, li, key[1], cur)
     if isinstance(it.ty, _TSet):
         return _set_loop_handler(interp, node, it, frame, li, key[1], cur)
     ps = interp.path
@@ -697,7 +752,10 @@ def _loop_handler(interp, node, it, frame):
         i = ps.fresh("i", TInt)
         ps.assume(z3.And(i >= 0, i < n))
         ps.assume(li.inv(ctx, env_now(), i, seq_t))
-        interp.assign(node.target, interp.wrap(seq_t[i], it.ty.elem), frame)
+        elem = interp.wrap(seq_t[i], it.ty.elem)
+        if enum_start is not None:
+            elem = (interp.wrap(i + interp.to_int_term(enum_start), TInt), elem)
+        interp.assign(node.target, elem, frame)
         from .interp import _Break, _Continue
 
         try:
